@@ -30,3 +30,51 @@ type Case struct {
 
 // PassMarker is the last line a successful worker prints on stdout.
 const PassMarker = "BENCHRUN-PASS"
+
+// WaveID identifies a wavefront independently of the execution mode.
+type WaveID struct {
+	Packet  uint64 `json:"packet"` // device address of the dispatch packet
+	WG      [3]int `json:"wg"`
+	FirstWI int    `json:"first_wi"`
+}
+
+// Less orders wavefront ids.
+func (a WaveID) Less(b WaveID) bool {
+	if a.Packet != b.Packet {
+		return a.Packet < b.Packet
+	}
+	for d := 2; d >= 0; d-- {
+		if a.WG[d] != b.WG[d] {
+			return a.WG[d] < b.WG[d]
+		}
+	}
+	return a.FirstWI < b.FirstWI
+}
+
+// WaveDigest summarises the instructions one wavefront id executed (all dispatches that
+// reused the packet address, in execution order).
+type WaveDigest struct {
+	ID   WaveID `json:"id"`
+	N    int    `json:"n"`
+	Hash string `json:"hash"`
+}
+
+// D2HDigest lists, for one device address, the data delivered to device-to-host copy requests.
+type D2HDigest struct {
+	Addr uint64   `json:"addr"`
+	Data []string `json:"data"` // "<bytes>:<hash>" in delivery order
+}
+
+// MaxWavesListed bounds the per-wavefront list of a digest (beyond it only WavesHash is kept).
+const MaxWavesListed = 50000
+
+// Digest is what a worker in digest mode (BENCHRUN_DIGEST) observed.
+type Digest struct {
+	Insts       int          `json:"insts"`
+	NumWaves    int          `json:"num_waves"`
+	WavesHash   string       `json:"waves_hash"`
+	Waves       []WaveDigest `json:"waves,omitempty"`
+	Kernels     int          `json:"kernels"` // kernel launch commands started
+	D2HRequests int          `json:"d2h_requests"`
+	D2H         []D2HDigest  `json:"d2h"`
+}
